@@ -121,7 +121,7 @@ pub mod drive {
             "sq" => match block_on(s.svc.query(req(s, t, QueryRequest { doc_id: n(2), include_embedding: true, namespace: String::new() }))) {
                 Ok(r) => {
                     let r = r.into_inner();
-                    if r.found { format!("{}", r.embedding.first().copied().unwrap_or(-1.0) as i64) } else { "none".into() }
+                    if r.found { format!("{}/{}", r.embedding.first().copied().unwrap_or(-1.0) as i64, r.metadata.get("v").cloned().unwrap_or_else(|| "-".into())) } else { "none".into() }
                 }
                 Err(e) => code(&e),
             },
